@@ -34,9 +34,13 @@ ASSUMPTIONS = [
     "np.argsort tie-breaking (Pairwise anchors) is an oracle input",
     "see C11 for the reductions shared with it (constructor = plate-uniform check, ids = ranks of names, integer ceil / floor)",
 ]
-EXPLANATION = ("Models shared with C11 (Model/Retro.v, Pairwise.v, RetroInit.v).  Two clauses are false of the code as found and are kept "
-               "visible as _refuted theorems; the positive theorems are about the repaired logic selected by the model parameter `fixed`, "
-               "and the correspondence runs whichever variant /repo contains.")
+EXPLANATION = ("Models shared with C11 (Model/Retro.v, Pairwise.v, RetroInit.v); every clause of the property has a theorem, none is "
+               "partial.  Two clauses are false of the code as found and are kept visible as _refuted theorems (vm_compute witnesses, "
+               "replayed on the real code by the first generated cases); the positive theorems are about the repaired logic selected by "
+               "the model parameter `fixed`, and the correspondence runs whichever variant /repo contains (decided by replaying the "
+               "canonical witnesses; reported as the extra check `variant-detected`).  The SparseCover while loop recurses on the "
+               "recorded answers, so no fuel is needed in the model; a bound on the number of iterations is not stated as a theorem.  "
+               "heapq is modelled by its contract (heappop answers are oracle inputs checked to be smallest), not by its array layout.")
 
 SIGNATURES = ("sample-segregating-lumps-small-samples", "nplate-stale-sample-ids")
 
@@ -64,8 +68,7 @@ def gen(rng, tier):
     for _ in range(200 * k):
         cls = rng.choice(["mergemin", "mergetb", "fixed", "optimal", "nplate", "nplate", "ensemble"])
         sd = L.gen_screen(rng, style=rng.choice(["one_sample_plates"] * 5 + ["mixed"]) if cls in ("mergemin", "mergetb", "nplate", "ensemble") else None)
-        params = dict(min_size=rng.choice([0, 1, 2, 3, 4, 5, 6, 8, 12]), n_iter=rng.choice([0, 1, 1, 2, 3, -1]),
-                      size=rng.choice([0, 1, 2, 2, 3, 3, 4, 5, 7, -1, 50]), min_plates=rng.choice([0, 1, 2, 2, 3]))
+        params = L.smoother_params(rng, sd)
         yield dict(kind="smooth", cls=cls, params=params, screen=sd, seed=rng.randrange(10 ** 6))
     for _ in range(50 * k):
         yield dict(kind="sparse", reveal=rng.random() < 0.5, screen=L.gen_screen(rng, all_observed=rng.random() < 0.93), seed=rng.randrange(10 ** 6))
